@@ -205,6 +205,8 @@ func (r *Report) Failing() []Obligation {
 // Finish applies anti-vacuity minima, matches violations against the
 // known-findings file, writes evidence and replay artefacts, prints the
 // protocol lines and returns the process exit code.
+var knownSeen map[string]bool
+
 func (r *Report) Finish() int {
 	// anti-vacuity
 	perRule := map[string]int{}
@@ -265,12 +267,19 @@ func (r *Report) Finish() int {
 		if o.Status != Violated && o.Status != Undecided {
 			continue
 		}
+		if knownSeen == nil {
+			knownSeen = map[string]bool{}
+		}
 		if o.Status == Undecided {
 			nund++
 		}
 		if f := isKnown(o); f != nil && o.Status == Violated {
-			nknown++
-			knownLines = append(knownLines, fmt.Sprintf("KNOWN-FINDING: property=%s %s — %s", r.Property, o.Key, f.What))
+			if !knownSeen[f.Key] {
+				// one line per listed finding (the thorough tier meets it on both architectures)
+				knownSeen[f.Key] = true
+				nknown++
+				knownLines = append(knownLines, fmt.Sprintf("KNOWN-FINDING: property=%s %s — %s", r.Property, f.Key, f.What))
+			}
 			continue
 		}
 		nviol++
